@@ -24,6 +24,15 @@ Local Open Scope list_scope.
 Definition key := string.
 Definition dist (A : Type) := list (A * Q).      (* DictDistribution: items in dict order *)
 
+(* cached tabular views (numpy arrays / sets that cached_property and method_cache store
+   on the INSTANCE under "_cached_<name>" / "_cache_<name>") *)
+Inductive tabview : Type :=
+| TQ3 (m : list (list (list Q)))                 (* transition_matrix, reward_matrix *)
+| TB2 (m : list (list bool))                     (* action_matrix *)
+| TB1 (v : list bool)                            (* absorbing_state_vec, dead_end_state_vec *)
+| TQ1 (v : list Q)                               (* initial_state_vec *)
+| TN1 (v : list nat).                            (* reachable_states() (a set) *)
+
 (* What an attribute can evaluate to.  A callable component is represented by its
    (already bound) behaviour. *)
 Inductive value : Type :=
@@ -33,7 +42,8 @@ Inductive value : Type :=
 | VActs (f : nat -> list nat)                    (* actions(s) *)
 | VTrans (f : nat -> nat -> dist nat)            (* next_state_dist(s, a) *)
 | VRew (f : nat -> nat -> nat -> Q)              (* reward(s, a, ns) *)
-| VAbs (f : nat -> bool).                        (* is_absorbing(s) *)
+| VAbs (f : nat -> bool)                         (* is_absorbing(s) *)
+| VTab (t : tabview).                            (* a cached tabular view *)
 
 Fixpoint assoc {A : Type} (k : key) (l : list (key * A)) : option A :=
   match l with
@@ -188,6 +198,139 @@ Definition sub_task_gen (extra : list key) (o : obj) (so : subgoal_option) : opt
   | _ => None
   end.
 Definition sub_task : obj -> subgoal_option -> option obj := sub_task_gen copied_plain.
+
+(* ------------------------------------------------------------------ *)
+(** * Part A' — tabular views (tabularmdp.py) and their per-instance caches *)
+
+(* cached_property / method_cache: `if not hasattr(self, "_cached_x"): setattr(self, ...)`.
+   The cache entries only ever live in instance dicts (setattr on self; no class defines
+   these names), so a FRESH instance recomputes every view from its own components. *)
+Definition cached (o : obj) (attr : key) (compute : option tabview) : option tabview :=
+  match assoc attr (inst o) with
+  | Some (VTab t) => Some t
+  | Some _ => None
+  | None => compute
+  end.
+
+Definition comp_init (o : obj) := match getattr o "initial_state_dist" with Some (VInit d) => Some d | _ => None end.
+Definition comp_acts (o : obj) := match getattr o "actions" with Some (VActs f) => Some f | _ => None end.
+Definition comp_trans (o : obj) := match getattr o "next_state_dist" with Some (VTrans f) => Some f | _ => None end.
+Definition comp_rew (o : obj) := match getattr o "reward" with Some (VRew f) => Some f | _ => None end.
+Definition comp_abs (o : obj) := match getattr o "is_absorbing" with Some (VAbs f) => Some f | _ => None end.
+Definition comp_lists (o : obj) : option (list nat * list nat) :=
+  match getattr o "state_list", getattr o "action_list" with
+  | Some (VNats sl), Some (VNats al) => Some (sl, al)
+  | _, _ => None
+  end.
+
+Fixpoint dprob (d : dist nat) (x : nat) : option Q :=       (* dict lookup *)
+  match d with
+  | [] => None
+  | (e, p) :: r => if Nat.eqb e x then Some p else dprob r x
+  end.
+Definition dprob0 (d : dist nat) (x : nat) : Q := match dprob d x with Some p => p | None => 0%Q end.
+
+(* transition_matrix: tf[si, ai, nsi] = p for a in actions(s), (ns, p) in next_state_dist(s, a), p != 0.
+   (A successor with p != 0 outside state_list makes the code raise; not modelled.) *)
+Definition compute_tf (o : obj) : option tabview :=
+  match comp_lists o, comp_acts o, comp_trans o with
+  | Some (sl, al), Some acts, Some tr =>
+      Some (TQ3 (map (fun s => map (fun a => map (fun ns =>
+                 if memb a (acts s) then dprob0 (tr s a) ns else 0%Q) sl) al) sl))
+  | _, _, _ => None
+  end.
+Definition view_tf (o : obj) := cached o "_cached_transition_matrix" (compute_tf o).
+
+Definition compute_am (o : obj) : option tabview :=
+  match comp_lists o, comp_acts o with
+  | Some (sl, al), Some acts => Some (TB2 (map (fun s => map (fun a => memb a (acts s)) al) sl))
+  | _, _ => None
+  end.
+Definition view_am (o : obj) := cached o "_cached_action_matrix" (compute_am o).
+
+Definition compute_rf (o : obj) : option tabview :=
+  match comp_lists o, comp_acts o, comp_trans o, comp_rew o with
+  | Some (sl, al), Some acts, Some tr, Some rw =>
+      Some (TQ3 (map (fun s => map (fun a => map (fun ns =>
+                 if memb a (acts s) && negb (Qeq_bool (dprob0 (tr s a) ns) 0)
+                 then rw s a ns else 0%Q) sl) al) sl))
+  | _, _, _, _ => None
+  end.
+Definition view_rf (o : obj) := cached o "_cached_reward_matrix" (compute_rf o).
+
+Definition compute_dead (o : obj) : option tabview :=
+  match view_am o with
+  | Some (TB2 am) => Some (TB1 (map (fun row => forallb negb row) am))
+  | _ => None
+  end.
+Definition view_dead (o : obj) := cached o "_cached_dead_end_state_vec" (compute_dead o).
+
+(* absorbing_state_vec = (self_looping & zero_reward) | [is_absorbing(s) for s in state_list];
+   it reads self.transition_matrix / action_matrix / reward_matrix / dead_end_state_vec,
+   i.e. THEIR caches when present *)
+Definition compute_absvec (o : obj) : option tabview :=
+  match comp_lists o, comp_abs o, view_tf o, view_am o, view_rf o, view_dead o with
+  | Some (sl, _), Some ab, Some (TQ3 tf), Some (TB2 am), Some (TQ3 rf), Some (TB1 dead) =>
+      Some (TB1 (map (fun si =>
+        let tfs := nth si tf [] in
+        let ams := nth si am [] in
+        let self_looping :=
+          forallb (fun ai => Qeq_bool (nth si (nth ai tfs []) 0%Q) 1 || negb (nth ai ams false))
+                  (seq 0 (List.length ams)) && negb (nth si dead false) in
+        let zero_reward := forallb (fun row => forallb (fun x => Qeq_bool x 0) row) (nth si rf []) in
+        (self_looping && zero_reward) || ab (nth si sl O)) (seq 0 (List.length sl))))
+  | _, _, _, _, _, _ => None
+  end.
+Definition view_absvec (o : obj) := cached o "_cached_absorbing_state_vec" (compute_absvec o).
+
+Definition compute_s0 (o : obj) : option tabview :=
+  match comp_lists o, comp_init o with
+  | Some (sl, _), Some d => Some (TQ1 (map (dprob0 d) sl))
+  | _, _ => None
+  end.
+Definition view_s0 (o : obj) := cached o "_cached_initial_state_vec" (compute_s0 o).
+
+(* MarkovDecisionProcess.reachable_states() (method_cache, "_cache_reachable_states"): initial
+   support is expanded; a newly seen successor is expanded only if not is_absorbing *)
+Fixpoint reach_loop (acts : nat -> list nat) (tr : nat -> nat -> dist nat) (ab : nat -> bool)
+         (fuel : nat) (visited frontier : list nat) : list nat :=
+  match fuel with
+  | O => visited
+  | S f =>
+      match frontier with
+      | [] => visited
+      | s :: fr =>
+          let succ := flat_map (fun a => map fst (filter (fun ep => negb (Qeq_bool (snd ep) 0)) (tr s a))) (acts s) in
+          let vf := fold_left (fun vf ns =>
+                      if memb ns (fst vf) then vf
+                      else (fst vf ++ [ns], if ab ns then snd vf else snd vf ++ [ns]))
+                    succ (visited, fr) in
+          reach_loop acts tr ab f (fst vf) (snd vf)
+      end
+  end.
+Fixpoint dedup (l : list nat) : list nat :=
+  match l with [] => [] | x :: r => if memb x r then dedup r else x :: dedup r end.
+Definition compute_reachable (fuel : nat) (o : obj) : option tabview :=
+  match comp_init o, comp_acts o, comp_trans o, comp_abs o with
+  | Some d, Some acts, Some tr, Some ab =>
+      let s0 := dedup (map fst (filter (fun ep => negb (Qle_bool (snd ep) 0)) d)) in
+      Some (TN1 (reach_loop acts tr ab fuel s0 s0))
+  | _, _, _, _ => None
+  end.
+Definition view_reachable (fuel : nat) (o : obj) := cached o "_cache_reachable_states" (compute_reachable fuel o).
+
+(* using an object: every view gets computed and stored on the instance *)
+Definition cache_entry (attr : key) (v : option tabview) : list (key * value) :=
+  match v with Some t => [(attr, VTab t)] | None => [] end.
+Definition touch (fuel : nat) (o : obj) : obj :=
+  mkObj (inst o ++ cache_entry "_cached_transition_matrix" (view_tf o)
+                ++ cache_entry "_cached_action_matrix" (view_am o)
+                ++ cache_entry "_cached_reward_matrix" (view_rf o)
+                ++ cache_entry "_cached_dead_end_state_vec" (view_dead o)
+                ++ cache_entry "_cached_absorbing_state_vec" (view_absvec o)
+                ++ cache_entry "_cached_initial_state_vec" (view_s0 o)
+                ++ cache_entry "_cache_reachable_states" (view_reachable fuel o))
+        (mro o).
 
 (* ------------------------------------------------------------------ *)
 (** * Part B — roll-outs *)
